@@ -16,6 +16,7 @@
 package main
 
 import (
+	"flag"
 	"fmt"
 	"time"
 	"os"
@@ -108,6 +109,8 @@ func runCase1(o *hx.Out, p params) (result string, total int64) {
 }
 
 func record(o *hx.Out, p params, res string) {
+	lastCase = p.leg + " " + p.String() + " => " + res
+	noteLeaks(o)
 	nt := ""
 	if p.crashAt >= 0 {
 		nt = p.String()
@@ -171,7 +174,14 @@ func crashPoints(r *hx.Rng, total int64, start int64, k int, all bool) []int64 {
 	return res
 }
 
+// The process never lives as long as a session of the code under test (5 minutes, the maximum a client can ask
+// for): whatever timer of a controller the harness has already closed is still pending cannot fire in it.
+const maxProcessLife = 4 * time.Minute
+
+var processStart = time.Now()
+
 func main() {
+	part := flag.Int("part", 0, "thorough runs are split into parts, one process each; the part number perturbs the seed")
 	fl := hx.ParseFlags()
 	root := os.Getenv("VERIF_TMP")
 	if root == "" {
@@ -205,7 +215,7 @@ func main() {
 		return
 	}
 
-	rng := hx.NewRng(fl.Seed)
+	rng := hx.NewRng(fl.Seed + uint64(*part)*1000003)
 	// the budget -n is the number of crash instants explored (restarts of real controllers)
 	budget := fl.N
 	legs := []struct {
@@ -221,6 +231,10 @@ func main() {
 			perWorkload = 1 << 30
 		}
 		for used := 0; used < legBudget; {
+			if time.Since(processStart) > maxProcessLife {
+				o.Count("stopped:process-life-limit")
+				break
+			}
 			p := params{leg: lg.leg, wseed: r.U64() >> 1, crashAt: -1, mode: "p", restart: "leader"}
 			p.rf = []int{1, 1, 3, 3, 5}[r.Intn(5)]
 			p.nw = 4 + r.Intn(12)
@@ -243,6 +257,9 @@ func main() {
 				kk = 16
 			}
 			for _, cp := range crashPoints(wr, total, startOps, kk, thorough) {
+				if time.Since(processStart) > maxProcessLife {
+					break
+				}
 				q := p
 				q.crashAt = cp
 				pr := hx.NewRng(p.wseed ^ uint64(cp)*0x9E3779B97F4A7C15)
@@ -258,6 +275,20 @@ func main() {
 		o.Extra["seconds:"+lg.leg] = time.Since(t0).Seconds()
 	}
 }
+
+// called between cases: no controller of the harness is open
+func noteLeaks(o *hx.Out) {
+	if l := leakedSessions(); l > leaksSeen {
+		if os.Getenv("C07_LEAKDBG") != "" {
+			fmt.Fprintln(os.Stderr, "LEAK after", lastCase, l-leaksSeen)
+		}
+		o.CountN("leaked-session-goroutines(closed-controller)", l-leaksSeen)
+		leaksSeen = l
+	}
+}
+
+var leaksSeen int
+var lastCase string
 
 func cleanTmp() {
 	ms, _ := filepath.Glob(filepath.Join(tmpRoot, "*"))
